@@ -2488,7 +2488,7 @@ class Trimesh(Geometry3D):
             # is not the normal of the transformed face, so recompute them
             gram = np.dot(matrix[:3, :3].T, matrix[:3, :3])
             scale = gram.diagonal().mean()
-            if not util.allclose(gram, np.eye(3) * scale, atol=1e-8 * max(scale, 1.0)):
+            if not util.allclose(gram, np.eye(3) * scale, atol=1e-8 * scale):
                 self._cache.delete("face_normals")
                 self._cache.delete("vertex_normals")
 
